@@ -783,3 +783,115 @@ def run_layout(ctx, only=None):
 
 
 STREAMS["layout"] = run_layout
+
+
+# ----------------------------------------------------------------------------- (49) layout of the upstream cotangent
+
+def _fwd(P, C, node, ltypes, tensors):
+    ts = [t.clone().requires_grad_(True) for t in tensors]
+    leaves = [C.wrap_leaf(P, ty, x) for ty, x in zip(ltypes, ts)]
+    out = T(C.as_tensor(P, C.run_impl(P, node, leaves, [])))
+    if C.node_type(node, ltypes)[0] == "M":
+        out = out.reshape(out.shape[:-2] + (out.shape[-2] * out.shape[-1],))
+    return ts, out
+
+
+def run_cotlayout(ctx, only=None):
+    """the cotangent that reaches the operation has >= 2 batch dimensions in a transposed / permuted DENSE layout: (a) `grad_outputs=` given
+    as such a tensor, (b) glue after the operation — `.transpose(0,1)` / `.permute(...)` / `.movedim(...)` — followed by a weighted sum.
+    Gradients must equal those for the contiguous cotangent of the same values (bit for bit, else <= 64 eps), which are compared with the
+    Lean model on sampled items."""
+    P = U.pp()
+    C = _c04()
+    samples = []
+    for gi, g in enumerate(GROUPS):
+        for fi, (name, node, ltypes) in enumerate(H4.families(g)):
+            if only is not None and only != (g, name):
+                continue
+            shapes = [(6, 4), (2, 3, 4)] if not ctx.quick else [[(6, 4), (2, 3, 4)][(fi + gi) % 2]]
+            for shape in shapes:
+                for dtype in (("float64",) if ctx.quick else ("float64", "float32")):
+                    n = int(math.prod(shape))
+                    nb = len(shape)
+                    case = {"stream": "cotlayout", "type": g, "read": name, "dtype": dtype, "shape": list(shape)}
+                    try:
+                        flat = [_generic_leaf(P, C, g, ty, n, dtype, li) for li, ty in enumerate(ltypes)]
+                        batched = [t.reshape(tuple(shape) + t.shape[-1:]) for t in flat]
+                        ts, out = _fwd(P, C, node, ltypes, batched)
+                        cot = cot_for(out)
+                        g_ref = [None if x is None else x.detach() for x in torch.autograd.grad(out, ts, cot, allow_unused=True)]
+                        ctx.note_case(("cotlayout", g, name, dtype, tuple(shape)), True)
+                        if any(x is not None and (not bool(torch.isfinite(x).all()) or not bool((x != 0).any())) for x in g_ref):
+                            ctx.fail(case, f"cotlayout: reference gradient of {name} on {g} is non-finite or identically zero ({dtype})")
+                            continue
+
+                        def check(lab, gs):
+                            ctx.count("cotlayout.calls")
+                            gs = [None if x is None else x.detach() for x in gs]
+                            for k, (x, y) in enumerate(zip(gs, g_ref)):
+                                if (x is None) != (y is None) or (x is not None and not same(x, y) and not H4.rows_close(x.reshape(n, -1), y.reshape(n, -1), dtype, 64)):
+                                    z = "None" if x is None else ("identically zero" if not bool((x != 0).any()) else "different")
+                                    ctx.fail(dict(case, cotangent=lab, leaf=k, values=[t[0].tolist() for t in flat]),
+                                             f"cotlayout: {name} on {g}, batch {shape}: the gradient of leaf {k} for {lab} is {z} compared with the "
+                                             f"gradient for the contiguous cotangent of the same values ({dtype})")
+                                    return
+                        # (a) grad_outputs with permuted dense strides
+                        rev = list(range(nb - 1, -1, -1)) + [nb]
+                        cot_p = cot.permute(rev).contiguous().permute(rev)
+                        ts2, out2 = _fwd(P, C, node, ltypes, batched)
+                        check("grad_outputs with reversed (permuted, dense) batch strides", torch.autograd.grad(out2, ts2, cot_p, allow_unused=True))
+                        if nb == 3:
+                            pr = [1, 2, 0, 3]
+                            inv = [2, 0, 1, 3]
+                            cot_q = cot.permute(pr).contiguous().permute(inv)
+                            ts2, out2 = _fwd(P, C, node, ltypes, batched)
+                            check("grad_outputs with cyclically permuted batch strides", torch.autograd.grad(out2, ts2, cot_q, allow_unused=True))
+                        # (b) glue after the operation, then a weighted sum
+                        glues = [("transpose(0,1)", lambda y: y.transpose(0, 1), lambda c_: c_.transpose(0, 1).contiguous())]
+                        if nb == 3:
+                            glues += [("permute(2,0,1)", lambda y: y.permute(2, 0, 1, 3), lambda c_: c_.permute(2, 0, 1, 3).contiguous()),
+                                      ("movedim(0,-2)", lambda y: y.movedim(0, -2), lambda c_: c_.movedim(0, -2).contiguous())]
+                        else:
+                            glues += [("movedim(0,1)", lambda y: y.movedim(0, 1), lambda c_: c_.movedim(0, 1).contiguous())]
+                        for lab, gl, wl in glues:
+                            ts3, out3 = _fwd(P, C, node, ltypes, batched)
+                            loss = (gl(out3) * wl(cot)).sum()
+                            check(f"op(...).{lab} followed by a weighted sum", torch.autograd.grad(loss, ts3, allow_unused=True))
+                        # the reference itself against the model, on three items
+                        if dtype == "float64" and (not ctx.quick or (fi + gi) % 2 == 0):
+                            smp = [0, n // 2, n - 1]
+                            od = out.shape[-1]
+                            c3 = {"stream": "cotlayout", "prog": C.to_json(node), "ltypes": [list(t) for t in ltypes], "dtype": dtype,
+                                  "lshapes": [[3] for _ in ltypes], "bshape": [3], "root": list(C.node_type(node, ltypes)),
+                                  "values": [t[smp].tolist() for t in flat], "cot": cot.reshape(n, od)[smp].tolist(), "tags": ["cotlayout"] * len(ltypes),
+                                  "sample": smp, "shape": list(shape), "fd": False}
+                            samples.append((c3, out.detach().reshape(n, od)[smp].clone(), [None if x is None else x.reshape(n, -1)[smp].clone() for x in g_ref]))
+                    except Exception as e:
+                        ctx.fail(case, f"raises: {name} on {g}, batch {shape}, permuted cotangent ({dtype}) raised {type(e).__name__}: {str(e)[:140]}")
+    todo = []
+    for c3, o3, g3 in samples:
+        try:
+            r = C.run_case_impl(c3)
+            r.band, r.trunc = C.site_info(c3, r)
+        except Exception as e:
+            ctx.fail(c3, f"raises: sample: {type(e).__name__}: {str(e)[:120]}")
+            continue
+        r.out, r.grads = o3.double(), [None if x is None else x.double() for x in g3]
+        todo.append((c3, r))
+    lines, spans = [], []
+    for c3, r in todo:
+        ls, index = C.model_lines(c3, common.EPS[c3["dtype"]], want_fd=False)
+        spans.append((len(lines), len(ls), index))
+        lines += ls
+    reps = C.run_driver_parallel(ctx, lines) if lines else []
+    for (c3, r), (o, k, index) in zip(todo, spans):
+        M = C.collect_model(c3, reps[o:o + k], index)
+        bad, _ = C.compare_grads(c3, r, M, r.band)
+        ctx.count("cotlayout.model-samples")
+        if bad:
+            li, i, err, t = bad[0]
+            ctx.disagree("cotlayout.model", c3, f"cotlayout: gradient of leaf {li} of {C.prog_str(C.from_json(c3['prog']))} for item {c3['sample'][i]} of a batch "
+                                                f"{c3['shape']} differs from the model's reverse sweep by {err:.3e} > {t:.3e}")
+
+
+STREAMS["cotlayout"] = run_cotlayout
